@@ -1,10 +1,11 @@
 """Dispatch between the stage-1 pagination model and its stage-2 extensions (out-of-flow children, footnotes) for
 the sections of C01, C02, C03: which harness turns the stored document into the implementation's canonical line."""
-from harness import pm_corr, pm_foot_corr, pm_oof_corr
+from harness import pm_col_corr, pm_corr, pm_foot_corr, pm_oof_corr
 
 SECTIONS = {
     'pm-oof-documents': pm_oof_corr, 'pm-oof-outcomes': pm_oof_corr,
     'pm-foot-documents': pm_foot_corr, 'pm-foot-outcomes': pm_foot_corr,
+    'pm-col-documents': pm_col_corr, 'pm-col-outcomes': pm_col_corr,
 }
 
 
@@ -24,6 +25,14 @@ def conservation(section, doc, line, model_line=None):
     """C01 clause on the implementation's line. For out-of-flow documents whose model pagination (= the unchanged
     code) already loses or repeats out-of-flow lines - the recorded findings - only the flow is judged."""
     module = corr(section)
+    if module is pm_col_corr:
+        what = module.conservation_violation(doc, line, strict=True)
+        if what:
+            reference = model_line if model_line is not None else module.model_line('driver_c01', doc)
+            if not reference.startswith('err:') and module.conservation_violation(doc, reference, strict=True):
+                # the unchanged code loses content on this document too (column-span findings, fixed heights)
+                what = module.conservation_violation(doc, line, strict=False)
+        return what
     what = module.conservation_violation(doc, line)
     if module is pm_oof_corr and what:
         reference = model_line if model_line is not None else module.model_line('driver_c01', doc)
@@ -38,4 +47,6 @@ def progress(section, doc, line):
         return module.fit_violation(doc, line) or module.progress_violation(doc, line)
     if module is pm_foot_corr:
         return module.progress_violation(doc, line) or module.overlap_violation(doc, line)
+    if module is pm_col_corr:
+        return module.geometry_violation(doc, line) or module.progress_violation(doc, line)
     return module.progress_violation(doc, line)
